@@ -1,8 +1,271 @@
 import Pose.Wire
-/-! Driver ops for C15. -/
-namespace PP.Driver
-open PP Wire
+import Pose.Model.Dynamics
+/-!
+Driver ops for C15 (dynamics: clock, LTI/LTV, NLS linearisation, bmv/bvv/bvmv).
 
-def opsC15 : List (String × Handler) := []
+Token grammar (everything is space separated; numbers are exact `m:e` tokens):
+
+* `c15.clock <lti|ltv|nls> <c0> ev…`            ev ∈ `call raise fwd reset=<num> assign=<num> ref=<num|none>`
+  → the clock after every event
+* `c15.lin <lti|ltv> <periodic 0/1> T n m p hasc1 hasc2 c0 <stacked A B C D [c1] [c2]> ev…`
+  ev ∈ `call <len> x… <len> u…`, `fwd <len> x… <len> u…`, `reset=…`, `assign=…`, `ref=…`
+  → per event: clock, then `-` | `R` (raised) | `O x'… y…`
+* `c15.nls <alias 0/1> c0 nf ng <nf+ng trees, prefix> ev…`
+  ev ∈ `call <len> x… <len> u…`, `ref <- | len x…> <- | len u…> <- | L | num>`, `reset=…`, `assign=…`, `read`
+  → per event: clock, then `O f… g…` | `D` | `R` | `E` (read before any reference point) |
+    `L nx nu A… B… C… D… c1… c2…`
+* `c15.bmv r c M… v…`, `c15.bvv nl nr l… r…`, `c15.bvmv nl nr l… M… r…`
+-/
+namespace PP.Driver
+open PP Wire Dyn
+
+abbrev P := Except String
+
+def takeN (n : Nat) (ts : List String) : P (List String × List String) :=
+  if ts.length < n then .error "arity" else .ok (ts.take n, ts.drop n)
+
+def takeNums (n : Nat) (ts : List String) : P (List BigF × List String) := do
+  let (a, rest) ← takeN n ts
+  return (← nums a, rest)
+
+def chunks (n : Nat) : Nat → List β → List (List β)
+  | 0, _ => []
+  | c + 1, xs => xs.take n :: chunks n c (xs.drop n)
+
+/-- `rows × cols` numbers → matrix -/
+def takeMat (r c : Nat) (ts : List String) : P (DMat BigF × List String) := do
+  let (xs, rest) ← takeNums (r * c) ts
+  return (chunks c r xs, rest)
+
+/-- `T` stacked `r × c` matrices -/
+def takeStack (T r c : Nat) : List String → P (List (DMat BigF) × List String) := fun ts =>
+  match T with
+  | 0 => .ok ([], ts)
+  | T + 1 => do
+    let (m, rest) ← takeMat r c ts
+    let (ms, rest) ← takeStack T r c rest
+    return (m :: ms, rest)
+
+def takeVecs (T n : Nat) : List String → P (List (DVec BigF) × List String) := fun ts =>
+  match T with
+  | 0 => .ok ([], ts)
+  | T + 1 => do
+    let (v, rest) ← takeNums n ts
+    let (vs, rest) ← takeVecs T n rest
+    return (v :: vs, rest)
+
+/-- `<len> x…` -/
+def takeLenVec (ts : List String) : P (DVec BigF × List String) :=
+  match ts with
+  | l :: rest => do let n ← nat l; takeNums n rest
+  | [] => .error "arity"
+
+/-- exact rational of an `m:e` token -/
+def targ (s : String) : P TArg :=
+  match s.splitOn ":" with
+  | [ms, es] =>
+    match ms.toInt?, es.toInt? with
+    | some m, some e =>
+      if e ≥ 0 then .ok ⟨m * (2 ^ e.toNat : Int), 1⟩ else .ok ⟨m, 2 ^ (-e).toNat⟩
+    | _, _ => .error s!"bad-time:{s}"
+  | _ => .error s!"bad-time:{s}"
+
+def kindOf (s : String) : P Kind :=
+  match s with
+  | "lti" => .ok .lti | "ltv" => .ok .ltv | "nls" => .ok .nls
+  | _ => .error s!"bad-kind:{s}"
+
+/-- `reset=…`, `assign=…`, `ref=…` -/
+def timeEv (tok : String) : Option (P Ev) :=
+  match tok.splitOn "=" with
+  | ["reset", v] => some (do return .reset (← targ v))
+  | ["assign", v] => some (do return .assign (← targ v))
+  | ["ref", "none"] => some (.ok (.refpoint none))
+  | ["ref", v] => some (do return .refpoint (some (← targ v)))
+  | _ => none
+
+def clockEv (tok : String) : P Ev :=
+  match tok with
+  | "call" => .ok .call
+  | "raise" => .ok .callRaise
+  | "fwd" => .ok .fwdDirect
+  | _ => match timeEv tok with
+    | some r => r
+    | none => .error s!"bad-event:{tok}"
+
+/-! ### linear systems -/
+
+partial def parseLEvs (ts : List String) (acc : Array (LEv BigF)) : P (Array (LEv BigF)) :=
+  match ts with
+  | [] => .ok acc
+  | "call" :: rest => do
+    let (x, rest) ← takeLenVec rest
+    let (u, rest) ← takeLenVec rest
+    parseLEvs rest (acc.push (.call x u))
+  | "fwd" :: rest => do
+    let (x, rest) ← takeLenVec rest
+    let (u, rest) ← takeLenVec rest
+    parseLEvs rest (acc.push (.fwd x u))
+  | tok :: rest =>
+    match timeEv tok with
+    | some r => do
+      match ← r with
+      | .reset t => parseLEvs rest (acc.push (.reset t))
+      | .assign t => parseLEvs rest (acc.push (.assign t))
+      | .refpoint t => parseLEvs rest (acc.push (.refpoint t))
+      | _ => .error "bad-event"
+    | none => .error s!"bad-event:{tok}"
+
+def fmtLin (evs : List (LEv BigF)) (res : List (Int × Option (DVec BigF × DVec BigF))) : String :=
+  let items := (evs.zip res).map fun (e, (c, o)) =>
+    let tail := match e, o with
+      | .call _ _, some (x, y) => "O " ++ fmt (x ++ y)
+      | .fwd _ _, some (x, y) => "O " ++ fmt (x ++ y)
+      | .call _ _, none => "R"
+      | .fwd _ _, none => "R"
+      | _, _ => "-"
+    toString c ++ " " ++ tail
+  " ".intercalate items
+
+/-! ### expression trees -/
+
+partial def parseFn (ts : List String) : P (Fn × List String) :=
+  match ts with
+  | "C0" :: a :: b :: rest => do return (.const false (← nat a) (← nat b), rest)
+  | "C1" :: a :: b :: rest => do return (.const true (← nat a) (← nat b), rest)
+  | "V" :: i :: rest => do return (.var (← nat i), rest)
+  | "+" :: rest => do let (a, r) ← parseFn rest; let (b, r) ← parseFn r; return (.add a b, r)
+  | "-" :: rest => do let (a, r) ← parseFn rest; let (b, r) ← parseFn r; return (.sub a b, r)
+  | "*" :: rest => do let (a, r) ← parseFn rest; let (b, r) ← parseFn r; return (.mul a b, r)
+  | "~" :: rest => do let (a, r) ← parseFn rest; return (.neg a, r)
+  | "S" :: rest => do let (a, r) ← parseFn rest; return (.sin a, r)
+  | "K" :: rest => do let (a, r) ← parseFn rest; return (.cos a, r)
+  | "P" :: n :: rest => do let (a, r) ← parseFn rest; return (.pow a (← nat n), r)
+  | _ => .error "bad-tree"
+
+def parseFns : Nat → List String → P (List Fn × List String)
+  | 0, ts => .ok ([], ts)
+  | n + 1, ts => do
+    let (f, r) ← parseFn ts
+    let (fs, r) ← parseFns n r
+    return (f :: fs, r)
+
+/-- `-` or `<len> x…` -/
+def takeOptVec (ts : List String) : P (Option (DVec BigF) × List String) :=
+  match ts with
+  | "-" :: rest => .ok (none, rest)
+  | _ => do let (v, rest) ← takeLenVec ts; return (some v, rest)
+
+inductive NCmd
+  | ev (e : NEv BigF)
+  | read
+
+partial def parseNCmds (ts : List String) (acc : Array NCmd) : P (Array NCmd) :=
+  match ts with
+  | [] => .ok acc
+  | "call" :: rest => do
+    let (x, rest) ← takeLenVec rest
+    let (u, rest) ← takeLenVec rest
+    parseNCmds rest (acc.push (.ev (.call x u)))
+  | "ref" :: rest => do
+    let (x, rest) ← takeOptVec rest
+    let (u, rest) ← takeOptVec rest
+    match rest with
+    | "-" :: rest => parseNCmds rest (acc.push (.ev (.refpoint x u .default)))
+    | "L" :: rest => parseNCmds rest (acc.push (.ev (.refpoint x u .live)))
+    | t :: rest => do let t ← num t; parseNCmds rest (acc.push (.ev (.refpoint x u (.val t))))
+    | [] => .error "arity"
+  | "read" :: rest => parseNCmds rest (acc.push .read)
+  | tok :: rest =>
+    match timeEv tok with
+    | some r => do
+      match ← r with
+      | .reset t => parseNCmds rest (acc.push (.ev (.reset t)))
+      | .assign t => parseNCmds rest (acc.push (.ev (.assign t)))
+      | _ => .error "bad-event"
+    | none => .error s!"bad-event:{tok}"
+
+def fmtLinear (x u : DVec BigF) (L : Lin BigF) : String :=
+  s!"L {x.length} {u.length} " ++
+    fmt (L.A.flatten ++ L.B.flatten ++ L.C.flatten ++ L.D.flatten ++ L.c1 ++ L.c2)
+
+def runNCmds (aliasT : Bool) (fs gs : List Fn) (S0 : NState BigF) (cmds : List NCmd) : List String :=
+  (cmds.foldl (fun (acc : NState BigF × List String) c =>
+    let (S, out) := acc
+    match c with
+    | .ev e =>
+      let (S', o) := stepN aliasT fs gs S e
+      let tail := match o with
+        | .outputs f g => "O " ++ fmt (f ++ g)
+        | .done => "D"
+        | .raised => "R"
+      (S', (toString S'.clock ++ " " ++ tail) :: out)
+    | .read =>
+      let tail := match readLin fs gs S, S.refx, S.refu with
+        | some L, some x, some u => fmtLinear x u L
+        | _, _, _ => "E"
+      (S, (toString S.clock ++ " " ++ tail) :: out)) (S0, [])).2.reverse
+
+def opsC15 : List (String × Handler) := [
+  ("c15.clock", fun ts => do
+      match ts with
+      | kd :: c0 :: evs =>
+        let kd ← kindOf kd
+        let c0 ← int c0
+        let evs ← evs.mapM clockEv
+        return fmtInts (traceClock kd c0 evs)
+      | _ => throw "arity"),
+  ("c15.lin", fun ts => do
+      match ts with
+      | kd :: per :: T :: n :: m :: p :: h1 :: h2 :: c0 :: rest =>
+        let kd ← kindOf kd
+        let per ← nat per; let T ← nat T; let n ← nat n; let m ← nat m; let p ← nat p
+        let h1 ← nat h1; let h2 ← nat h2; let c0 ← int c0
+        let (A, rest) ← takeStack T n n rest
+        let (B, rest) ← takeStack T n m rest
+        let (C, rest) ← takeStack T p n rest
+        let (D, rest) ← takeStack T p m rest
+        let (c1, rest) ← if h1 == 1 then (do let (v, r) ← takeVecs T n rest; pure (some v, r)) else pure (none, rest)
+        let (c2, rest) ← if h2 == 1 then (do let (v, r) ← takeVecs T p rest; pure (some v, r)) else pure (none, rest)
+        let S : LinSys BigF := ⟨kd, per == 1, A, B, C, D, c1, c2⟩
+        let evs := (← parseLEvs rest #[]).toList
+        return fmtLin evs (runLin S c0 evs)
+      | _ => throw "arity"),
+  ("c15.nls", fun ts => do
+      match ts with
+      | al :: c0 :: nf :: ng :: rest =>
+        let al ← nat al; let c0 ← int c0; let nf ← nat nf; let ng ← nat ng
+        let (fs, rest) ← parseFns nf rest
+        let (gs, rest) ← parseFns ng rest
+        let cmds := (← parseNCmds rest #[]).toList
+        return " ".intercalate (runNCmds (al == 1) fs gs (NState.init c0) cmds)
+      | _ => throw "arity"),
+  ("c15.bmv", fun ts => do
+      match ts with
+      | r :: c :: rest =>
+        let r ← nat r; let c ← nat c
+        let (M, rest) ← takeMat r c rest
+        let v ← nums rest
+        if !(bmvOK M v) then throw "shape"
+        return fmt (bmv M v)
+      | _ => throw "arity"),
+  ("c15.bvv", fun ts => do
+      match ts with
+      | nl :: nr :: rest =>
+        let nl ← nat nl; let nr ← nat nr
+        let (l, rest) ← takeNums nl rest
+        let (r, _) ← takeNums nr rest
+        return fmt (bvv l r).flatten
+      | _ => throw "arity"),
+  ("c15.bvmv", fun ts => do
+      match ts with
+      | nl :: nr :: rest =>
+        let nl ← nat nl; let nr ← nat nr
+        let (l, rest) ← takeNums nl rest
+        let (M, rest) ← takeMat nl nr rest
+        let (r, _) ← takeNums nr rest
+        return fmt [bvmv l M r]
+      | _ => throw "arity")
+]
 
 end PP.Driver
